@@ -8,7 +8,7 @@
    chain looks at (incoming for "from" chains, outgoing for "to" chains);
    `names_ok wc names` says every name is non-empty and does not end in the wildcard byte. *)
 From Coq Require Import List NArith Bool Arith.
-From Verif.C10 Require Import Nf Model Spec Proofs.
+From Verif.C10 Require Import Nf Model Spec Proofs MapsModel MapsSpec MapsProofs.
 Import ListNotations.
 Open Scope N_scope.
 
@@ -132,3 +132,60 @@ Proof.
   split; [|vm_compute; reflexivity]. simpl. intros [H|[]]. discriminate.
 Qed.
 Print Assumptions c10_trailing_wildcard_refuted.
+
+(* ======================= part 2: programming the nftables dispatch verdict maps =======================
+   Model: MapsModel.v (felix/nftables/maps.go Maps + the Apply/retry/recreate loop of table.go, against an
+   abstract kernel table whose transactions fail atomically).  `synced s kn`: every desired map exists in the
+   kernel kn and holds exactly its desired members. *)
+
+(* PARTIAL statement of "after any history, once Apply() succeeds the kernel's dispatch map equals the desired
+   mapping": proved here for every Apply() that went through the table-recreate stage (>= 6 failed
+   transactions), for ANY state of the cached views and ANY kernel contents before it, any further
+   failures, no hypothesis.  This is the path in which InvalidateMapsCache matters.
+   MISSING: the same conclusion for an Apply() that succeeds within its first 6 attempts (the incremental
+   path).  That needs the invariant "member tracker's dataplane view = kernel contents, programmed-metadata
+   view <= kernel maps, out-of-sync desired maps are dirty or not in the metadata view" carried through
+   AddOrReplaceMap, the three outcomes of LoadDataplaneState and FinishMapUpdates, under the hypotheses that
+   the kernel table is changed only by Felix's transactions and starts without maps; it is covered by the
+   correspondence run + oracle only. *)
+Theorem c10_maps_sync_exact_partial : forall retries ts kn sc runs loads,
+  (retries < 6)%nat -> t_recreate ts = true -> t_insync ts = true ->
+  a_ok (apply_loop retries ts kn sc runs loads) = true ->
+  synced (t_m (a_ts (apply_loop retries ts kn sc runs loads))) (a_kn (apply_loop retries ts kn sc runs loads))
+  /\ same_desired (t_m (a_ts (apply_loop retries ts kn sc runs loads))) (t_m ts).
+Proof. exact apply_loop_recreate. Qed.
+Print Assumptions c10_maps_sync_exact_partial.
+
+(* One successful recreate transaction: every desired map is back WITH all its members. *)
+Theorem c10_maps_recreate_restores_desired : forall ts kn sc ts' kn' sc',
+  t_recreate ts = true ->
+  apply_updates ts kn sc = (true, ts', kn', sc') ->
+  synced (t_m ts') kn' /\ t_recreate ts' = false /\
+  (forall k, ms_all (t_m ts') k = ms_all (t_m ts) k) /\
+  (forall k, tr_des (get_or_create (t_m ts') k) = tr_des (get_or_create (t_m ts) k)).
+Proof. exact recreate_restores. Qed.
+Print Assumptions c10_maps_recreate_restores_desired.
+
+(* Composition with part 1: when the kernel's map equals the desired mapping (DispatchMappings of `names`),
+   the rendered nftables dispatch chain evaluated over the KERNEL's map sends every known interface to its
+   own chain and drops everything else - the same verdict as c10_known_iface_own_chain / c10_unknown_dropped
+   (and hence, by c10_vmap_same, as the iptables tree). *)
+Theorem c10_maps_synced_dispatch_exact : forall s kn k names pk,
+  synced s kn -> ms_all s k = true ->
+  (forall x, In x (tr_des (get_or_create s k)) <-> In x names) ->
+  khas kn k = true /\
+  eval 42 (vmap_ruleset k (map (fun n => (n, AGoto (CEp k n))) (sort_names (kelems kn k)))) pk (CRoot k) =
+  spec_workload false k names (pkt_if (kind_dir k) pk).
+Proof. exact synced_dispatch_exact. Qed.
+Print Assumptions c10_maps_synced_dispatch_exact.
+
+(* The hypotheses are met by a real run: two workloads, an outage of 6 failed transactions during which every
+   element listing fails too (the resyncs bail out half way), then the recreate goes through. *)
+Example c10_example_outage :
+  let ops := [MSet KWlFrom [[99;97;108;105;49]; [99;97;108;105;50]];
+              MApply {| sc_run := []; sc_listall := []; sc_elem := [] |};
+              MApply {| sc_run := [true;true;true;true;true;true]; sc_listall := [];
+                        sc_elem := [true;true;true;true;true;true] |}] in
+  map (fun o => (o_panicked o, o_runs o)) (run_ops t_init None ops) = [(false, 1%nat); (false, 7%nat)]
+  /\ ok_history [] ops (run_ops t_init None ops) = true.
+Proof. vm_compute. split; reflexivity. Qed.
